@@ -433,9 +433,15 @@ fn run_case(lines: Vec<String>, hints: Arc<Mutex<Vec<String>>>, resp: Arc<Mutex<
             {
                 let mut g = park.state.lock().unwrap();
                 let until = std::time::Instant::now() + Duration::from_secs(2);
-                while !g.0 && std::time::Instant::now() < until {
+                while !g.0 && !h.is_finished() && std::time::Instant::now() < until {
                     g = park.cv.wait_timeout(g, Duration::from_millis(50)).unwrap().0;
                 }
+            }
+            if !park.state.lock().unwrap().0 && !h.is_finished() {
+                // the request thread has neither reached the deadline conversion inside the scheduler nor returned (a request
+                // that is refused before its deadline is looked at returns at once) within 2 s — overloaded machine: the
+                // scripted order is not established, the case is abandoned like a stalled one (and run again by `run_impl`)
+                std::thread::sleep(Duration::from_secs(3600));
             }
             race = Some((h, park, expect, aid, t));
             tags.lock().unwrap().push("race".into());
@@ -1073,7 +1079,36 @@ impl Engine for Sched {
         }
     }
 
+    fn gen(&self, rng: &mut Rng, _idx: usize, tier: Tier, focus: &str) -> Case {
+        gen_case(rng, tier, focus)
+    }
+
+    fn blame(&self, _req: &str, _impl_r: &str, _model_r: &str) -> Vec<&'static str> {
+        // Concrete violations are reported by the monitors; a bare disagreement is a broken correspondence.
+        vec![]
+    }
+
     fn run_impl(&self, lines: &[String]) -> Outcome {
+        // A stepping call that does not return decides a property, so it has to be a fact about the code and not about the
+        // machine: a case that ran into the 10 s watchdog is run once more with a 60 s watchdog; only if it stalls again is it
+        // reported (the first observation is recorded as `infra.hang-not-reproduced` otherwise).
+        let first = self.run_once(lines, 10);
+        if first.hung && first.resp.iter().any(|r| r == "HANG") {
+            let second = self.run_once(lines, 60);
+            if second.hung {
+                return second;
+            }
+            HANGS.fetch_sub(1, Ordering::SeqCst);
+            let mut second = second;
+            second.tags.push("infra.hang-not-reproduced".into());
+            return second;
+        }
+        first
+    }
+}
+
+impl Sched {
+    fn run_once(&self, lines: &[String], watchdog_s: u64) -> Outcome {
         let mut out = Outcome::default();
         if HANGS.load(Ordering::SeqCst) >= 2 {
             out.resp = lines.iter().map(|_| "skipped-after-hangs".to_string()).collect();
@@ -1094,7 +1129,7 @@ impl Engine for Sched {
                 let _ = tx.send(r.is_ok());
             })
             .unwrap();
-        match rx.recv_timeout(Duration::from_secs(10)) {
+        match rx.recv_timeout(Duration::from_secs(watchdog_s)) {
             Ok(ok) => {
                 let _ = th.join();
                 out.resp = resp.lock().unwrap().clone();
@@ -1109,7 +1144,7 @@ impl Engine for Sched {
                 let req = lines.get(at).cloned().unwrap_or_default();
                 out.resp.push("HANG".into());
                 out.hung = true;
-                out.monitor.push(("C08".into(), format!("stepping call `{req}` did not return within 10 s")));
+                out.monitor.push(("C08".into(), format!("stepping call `{req}` did not return within {watchdog_s} s")));
             }
         }
         while out.resp.len() < lines.len() {
@@ -1120,15 +1155,6 @@ impl Engine for Sched {
         out.monitor.extend(mon.lock().unwrap().iter().cloned());
         out.nontrivial = nontrivial.load(Ordering::SeqCst);
         out
-    }
-
-    fn gen(&self, rng: &mut Rng, _idx: usize, tier: Tier, focus: &str) -> Case {
-        gen_case(rng, tier, focus)
-    }
-
-    fn blame(&self, _req: &str, _impl_r: &str, _model_r: &str) -> Vec<&'static str> {
-        // Concrete violations are reported by the monitors; a bare disagreement is a broken correspondence.
-        vec![]
     }
 }
 
